@@ -63,6 +63,12 @@ package encoding
 //@   pureheap
 //@   nopanic
 
+//@ func (Sequence).UntilInt
+//@   requires len(seq) == 0 || len(seq) >= 8
+//@   ensures empty: len(seq) == 0 ==> result == 0
+//@   ensures val: len(seq) > 0 ==> result == i64of(u64At(seq, 0))
+//@   pureheap
+
 //@ func (Sequence).SetUntil
 //@   requires len(seq) >= 8
 //@   requires unixNano(t) == clamp64(unixNano(t))
@@ -103,6 +109,7 @@ package encoding
 //@   instance res5s_w9: resolution == 5000000000 && width == 9
 //@   ensures origin: len(result) > 0 ==> obj(result) == obj(seq) || fresh(result)
 //@   ensures has_period: len(result) > 0 && len(seq) > 8 ==> len(result) > 8
+//@   ensures min_len: len(result) > 0 ==> len(result) >= 8
 //@   ensures until_bound: len(result) > 0 && abs(until) != 0 ==> untilOf(result) <= abs(until)
 //@   ensures asof_bound: len(result) > 0 && abs(asOf) != 0 ==> untilOf(result) - periodsOf(result, width)*resolution > abs(asOf) - resolution
 //@   ensures nothing_kept: len(result) == 0 ==> forall k in 0..n :: !((abs(asOf) == 0 || U - k*resolution - resolution >= abs(asOf)) && (abs(until) == 0 || U - k*resolution <= abs(until)))
